@@ -1787,7 +1787,12 @@ class SSHConnection(SSHPacketHandler, asyncio.Protocol):
                     handler: Optional[SSHPacketLogger] = None) -> None:
         """Send an SSH packet"""
 
-        if (self._auth_complete and self._kex_complete and
+        # The ignore packet sent ahead of other packets below is part of
+        # sending that packet, for which this was already checked. Checking
+        # it again could start a key exchange in the middle of the send if
+        # the time limit expires right in between.
+        if (pkttype != MSG_IGNORE and
+                self._auth_complete and self._kex_complete and
                 (self._rekey_bytes_sent >= self._rekey_bytes or
                  (self._rekey_seconds and
                   time.monotonic() >= self._rekey_time))):
